@@ -219,3 +219,43 @@ package sonic
 //@   ensures [accounting] old(f.closed) == 0 ==> f.ioc.poller.pending == old(f.ioc.poller.pending) - (old(armedR(f)) ? 1 : 0) - (old(armedW(f)) ? 1 : 0)
 //@   // Close releases the descriptor the object owns, whatever the poller answers
 //@   ensures [released] old(f.closed) == 0 ==> FDOPEN[f.slot.Fd] == 0
+
+// --- the event loop (C03) -------------------------------------------------------------------
+
+//@ pred ioInv(ioc *IO) = ioc.poller != nil && internal.pInv(ioc.poller)
+
+//@ func (*IO).Pending
+//@   requires ioc.poller != nil
+//@   pure
+
+//@ func (*IO).poll
+//@   prop C03
+//@   requires ioInv(ioc)
+//@   // a wait interrupted by a signal is never wrapped into an error
+//@   assert call os.NewSyscallError: arg1 != errno(4) && arg1 != sonicerrors.ErrTimeout
+//@   // nothing ready within the timeout is a timeout, not success
+//@   ensures [timeout] result1 == nil && result0 == 0 ==> timeoutMs < 0
+//@   ensures [count] result1 == nil ==> result0 >= 0
+//@   ensures [error-count] result1 != nil ==> result0 == 0
+//@   ensures [inv] ioInv(ioc)
+
+//@ func (*IO).RunPending
+//@   prop C03
+//@   requires ioInv(ioc)
+//@   loop 1 invariant ioInv(ioc)
+//@   // the loop is entered only while something is pending: RunPending never blocks with nothing in flight
+//@   assert call RunOne: ioc.poller.pending > 0
+//@   // and returns success exactly when nothing is pending any more
+//@   ensures [drained] result == nil ==> ioc.poller.pending <= 0
+
+//@ func (*IO).RunOne
+//@   prop C03
+//@   requires ioInv(ioc)
+//@   ensures [inv] ioInv(ioc)
+
+//@ func (*IO).PollOne
+//@   prop C03
+//@   requires ioInv(ioc)
+//@   ensures [timeout] err == nil && n == 0 ==> false
+//@   ensures [count] err == nil ==> n > 0
+//@   ensures [inv] ioInv(ioc)
